@@ -68,8 +68,12 @@ def random_diagram(rng, derived_keys=False, extras=False):
         for j in range(rng.randint(0, 3)):
             attrs.append(bp.Attr('a%d_%d' % (i, j), rng.choice(all_types)))
         if rng.random() < 0.3:
-            attrs.insert(rng.randint(1, len(attrs)),
-                         bp.Attr('der%d' % i, rng.choice(('integer', 'string')), derived='self.der%d = 1;' % i))
+            at = rng.randint(1, len(attrs))
+            attrs.insert(at, bp.Attr('der%d' % i, rng.choice(('integer', 'string')), derived='self.der%d = 1;' % i))
+            # one to three derived attributes in a row
+            for extra in range(rng.choice((0, 0, 1, 2))):
+                attrs.insert(at + 1 + extra, bp.Attr('der%d_%d' % (i, extra), rng.choice(('integer', 'boolean')),
+                                                     derived='self.der%d_%d = 2;' % (i, extra)))
         if rng.random() < 0.3:
             attrs.append(bp.Attr('k2_%d' % i, 'integer'))
         idents = [['Id']]
